@@ -23,7 +23,7 @@ def parseModel (st : SymTab) (s : List Char) : Outcome T :=
 /-- `Query.EvalBool` of a parsed query against one row -/
 def evalModel (seekable : Bool) (st : SymTab) (s : List Char) (row : Row) : Outcome Bool :=
   match parseModel st s with
-  | .ok t => evalBool seekable ⟨row, []⟩ t
+  | .ok t => evalRow seekable t row
   | .err e => .err e
   | .panic p => .panic p
 
